@@ -471,8 +471,15 @@ def reserved_name_cases(chk, n):
     rng = chk.rng
     combos = [(nm, var, obj, fw) for nm in IMPORTED_NAMES for var in ("asis", "snake") for obj in (True, False) for fw in FRAMEWORKS]
     rng.shuffle(combos)
+    # stratified: every name as a class under three of the five frameworks and once as a field, then whatever the budget still allows
+    first = []
+    for nm in IMPORTED_NAMES:
+        for fw in rng.sample(FRAMEWORKS, 3):
+            first.append((nm, rng.choice(["asis", "snake"]), True, fw))
+        first.append((nm, rng.choice(["asis", "snake"]), False, rng.choice(FRAMEWORKS)))
+    combos = first + [c for c in combos if c not in first]
     cases = []
-    for nm, var, obj, fw in combos[:n]:
+    for nm, var, obj, fw in combos[:max(n, len(first))]:
         key = nm if var == "asis" else inflection.underscore(nm)
         rich = {"zz_i": "1", "zz_f": "1.5", "zz_b": "true", "zz_d": "2020-01-02", "zz_t": "10:20:30", "zz_dt": "2020-01-02T10:20:30",
                 "zz_l": ["a", "b"], "zz_m": {"k1": 1, "k2": 2}, "zz_o": None}
